@@ -1,4 +1,5 @@
 #!/bin/bash
+export VERIF_EVIDENCE_DIR=/root/.cache/sfverif-trial-evidence; mkdir -p $VERIF_EVIDENCE_DIR  # evidence of trials on changed trees never lands in /verif/evidence
 # tools_try_mutant.sh <patch.diff> <Cxx> [Cyy ...]   apply a seeded change to /repo, run the quick checks, undo it
 P="$1"; shift
 git -C /repo apply "$P" || { echo "patch does not apply"; exit 2; }
